@@ -151,7 +151,7 @@ class TraitDict(dict):
         Any return values are ignored.
         """
 
-        for notifier in self.notifiers:
+        for notifier in self.notifiers[:]:
             notifier(self, removed, added, changed)
 
     # -- dict interface -------------------------------------------------------
